@@ -65,6 +65,8 @@ def gen_value(ty, rng, scope):
         return d
     if isinstance(ty, T.ListT):
         return [gen_value(ty.elem, rng, scope) for _ in range(rng.randint(0, scope["max_len"]))]
+    if isinstance(ty, T.ClassT):
+        return f"<class {ty.name}>"
     raise NotImplementedError(f"generator for {type(ty).__name__}")
 
 
